@@ -59,35 +59,57 @@ Proof. reflexivity. Qed.
 
 (* ---- npz key scheme: every boundary / subdomain name comes back, nothing else does, and a boundary is read back
    as oriented exactly when its orientation flags were written *)
-Lemma npz_keys_roundtrip : forall (bn sn on : list string),
+Lemma npz_keys_roundtrip : forall (bn sn on : list string) (unsorted : bool),
   let keys := gen_npz_fixed_keys ++ map (key_with_prefix gen_npz_save_b) bn
                                  ++ map (key_with_prefix gen_npz_save_s) sn
-                                 ++ map (key_with_prefix gen_npz_save_o) on in
+                                 ++ map (key_with_prefix gen_npz_save_o) on
+                                 ++ (if unsorted then [gen_npz_sort_t_key] else []) in
   decode_keys gen_npz_load_b keys = bn /\ decode_keys gen_npz_load_s keys = sn /\
-  forall n, In (key_with_prefix gen_npz_load_o n) keys <-> In n on.
+  (forall n, In (key_with_prefix gen_npz_load_o n) keys <-> In n on) /\
+  (In gen_npz_sort_t_key keys <-> unsorted = true).
 Proof.
-  intros bn sn on keys. unfold keys.
+  intros bn sn on unsorted keys. unfold keys.
   change gen_npz_save_b with (pre2 "b"%char "_"%char). change gen_npz_save_s with (pre2 "s"%char "_"%char).
   change gen_npz_save_o with (pre2 "o"%char "_"%char).
   change gen_npz_load_b with (pre2 "b"%char "_"%char). change gen_npz_load_s with (pre2 "s"%char "_"%char).
   change gen_npz_load_o with (pre2 "o"%char "_"%char).
-  split; [|split].
+  assert (Hb0 : decode_keys (pre2 "b"%char "_"%char) (if unsorted then [gen_npz_sort_t_key] else []) = [])
+    by (destruct unsorted; reflexivity).
+  assert (Hs0 : decode_keys (pre2 "s"%char "_"%char) (if unsorted then [gen_npz_sort_t_key] else []) = [])
+    by (destruct unsorted; reflexivity).
+  split; [|split; [|split]].
   - rewrite !decode_keys_app, decode_keys_hit.
     rewrite (decode_keys_miss "b"%char "_"%char "s"%char "_"%char) by reflexivity.
     rewrite (decode_keys_miss "b"%char "_"%char "o"%char "_"%char) by reflexivity.
     change (decode_keys (pre2 "b"%char "_"%char) gen_npz_fixed_keys) with (@nil string).
-    simpl. rewrite !app_nil_r. reflexivity.
+    rewrite Hb0. simpl. rewrite !app_nil_r. reflexivity.
   - rewrite !decode_keys_app, decode_keys_hit.
     rewrite (decode_keys_miss "s"%char "_"%char "b"%char "_"%char) by reflexivity.
     rewrite (decode_keys_miss "s"%char "_"%char "o"%char "_"%char) by reflexivity.
     change (decode_keys (pre2 "s"%char "_"%char) gen_npz_fixed_keys) with (@nil string).
-    simpl. rewrite app_nil_r. reflexivity.
+    rewrite Hs0. simpl. rewrite !app_nil_r. reflexivity.
   - intros n. rewrite !in_app_iff, !in_prefixed_keys. split.
-    + intros [Hf|[[Hp _]|[[Hp _]|[_ Hn]]]]; [|discriminate Hp|discriminate Hp|exact Hn].
-      exfalso. unfold gen_npz_fixed_keys in Hf. simpl in Hf.
-      destruct Hf as [Hf|[Hf|[]]]; apply (f_equal (String.substring 0 2)) in Hf; discriminate Hf.
-    + intros Hn. right. right. right. split; [reflexivity | exact Hn].
+    + intros [Hf|[[Hp _]|[[Hp _]|[[_ Hn]|Hs]]]]; [|discriminate Hp|discriminate Hp|exact Hn|].
+      * exfalso. unfold gen_npz_fixed_keys in Hf. simpl in Hf.
+        destruct Hf as [Hf|[Hf|[]]]; apply (f_equal (String.substring 0 2)) in Hf; discriminate Hf.
+      * exfalso. destruct unsorted; [|contradiction]. destruct Hs as [Hs|[]].
+        apply (f_equal (String.substring 0 2)) in Hs. discriminate Hs.
+    + intros Hn. right. right. right. left. split; [reflexivity | exact Hn].
+  - rewrite !in_app_iff. split.
+    + intros [Hf|[Hb|[Hs|[Ho|Hu]]]].
+      * exfalso. unfold gen_npz_fixed_keys in Hf. simpl in Hf. destruct Hf as [Hf|[Hf|[]]]; discriminate Hf.
+      * exfalso. apply in_map_iff in Hb. destruct Hb as [x [Hx _]]. apply (f_equal (String.substring 0 2)) in Hx.
+        unfold key_with_prefix in Hx. rewrite substring_prefix2 in Hx. discriminate Hx.
+      * exfalso. apply in_map_iff in Hs. destruct Hs as [x [Hx _]]. apply (f_equal (String.substring 0 2)) in Hx.
+        unfold key_with_prefix in Hx. rewrite substring_prefix2 in Hx. discriminate Hx.
+      * exfalso. apply in_map_iff in Ho. destruct Ho as [x [Hx _]]. apply (f_equal (String.substring 0 2)) in Hx.
+        unfold key_with_prefix in Hx. rewrite substring_prefix2 in Hx. discriminate Hx.
+      * destruct unsorted; [reflexivity | contradiction].
+    + intros ->. right. right. right. right. left. reflexivity.
 Qed.
+
+Lemma gen_sort_t_roundtrip : forall default v, gen_sort_t_load default (gen_sort_t_save default v) = v.
+Proof. exact opt_flag_roundtrip. Qed.
 
 (* ---- class <-> meshio cell type: what a supported class is written as is read back as that class (finite) *)
 Lemma class_type_roundtrip :
